@@ -4,7 +4,8 @@ CHECK = {
  'rule': 'rapid state machine over one real node (1-5 validators): apply valid blocks (transactions, validator changes, aggregate commits), offer '
          'invalid blocks, delete the tip (with/without temp copy), request deletion of finalized blocks, reorganise above finality, offer siblings of '
          'the tip (double forging, tie break valid/invalid in the current wall-clock slot), restart, and - a third of the nodes live on a strict in-memory file system - a kill at a drawn file-system operation while a valid block is applied, unsynced data lost, node reopened (the stored finalized height may only move together with the block that raises it); plus two-node runs over real p2p connections (TestSyncFinality) in which finality rises inside a fast or full sync and the finalize events must account for every raise. Non-trivial = the finalized height rose at least '
-         'twice and a delete/reorg/tie break/invalid offer/restart happened after a rise. Distinct by digest of the action log',
+         'twice and a delete/reorg/tie break/invalid offer/restart happened after a rise. Distinct by digest of the action log'
+         ' Plus TestSlowSubscriber (8 cases quick / 40 per thorough shard): a subscriber of the production kind (unbuffered Executer.Subscribe channels for new/delete/finalize read by one goroutine) stalls 0-2.5 s at drawn events while 4-9 blocks are applied; the finalization events it RECEIVED must be exactly the raises, in order (non-trivial = a stall above 1 s and at least two raises). Configuration draws include KeepEventsForHeights 0.',
  'level_text': 'After every action: finalized height never decreases; every finalized height keeps the block ID first observed for it (also across '
                'restart); after an apply the stored finalized height equals max(previous, maxHeightPrecommitted of the new tip); finalize events chain '
                'exactly old->new for every raise and only for raises; deleting a block at or below finality is refused and changes nothing.',
